@@ -19,6 +19,7 @@ import (
 	"strconv"
 	"strings"
 	"sync"
+	"syscall"
 	"time"
 )
 
@@ -121,6 +122,7 @@ func WorkerMain(id string) {
 	// Library code writes to os.Stdout (operation summary, printers). Keep the
 	// protocol on a private descriptor and send fd 1 to /dev/null.
 	protoOut = os.NewFile(3, "proto")
+	syscall.CloseOnExec(3) // child processes of a worker must not hold the protocol pipe open
 	if protoOut == nil {
 		fmt.Fprintln(os.Stderr, "no protocol fd")
 		os.Exit(3)
@@ -195,6 +197,7 @@ func startWorker(bin, id string) (*worker, error) {
 	cmd := exec.Command(bin, "worker", id)
 	cmd.ExtraFiles = []*os.File{pw}
 	cmd.Env = append(os.Environ(), "GOTRACEBACK=all", "GOMEMLIMIT=3GiB")
+	cmd.SysProcAttr = &syscall.SysProcAttr{Setpgid: true} // so that a kill reaches the worker's own children
 	devnull, _ := os.OpenFile(os.DevNull, os.O_WRONLY, 0)
 	cmd.Stdout = devnull
 	tb := &tailBuf{}
@@ -216,6 +219,7 @@ func (w *worker) kill() {
 		return
 	}
 	w.stdin.Close()
+	_ = syscall.Kill(-w.cmd.Process.Pid, syscall.SIGKILL)
 	_ = w.cmd.Process.Kill()
 	_ = w.cmd.Wait()
 	w.proto.Close()
@@ -265,6 +269,7 @@ func (w *worker) exec(c Case, timeout time.Duration) (o Outcome, died bool, why 
 		}
 		return r.o, false, ""
 	case <-time.After(timeout):
+		_ = syscall.Kill(-w.cmd.Process.Pid, syscall.SIGKILL)
 		_ = w.cmd.Process.Kill()
 		<-ch
 		_ = w.cmd.Wait()
